@@ -869,11 +869,14 @@ func (e *encoderBincBytes) kMapCanonical(ti *typeInfo, rv, rvv reflect.Value, ke
 
 		sideEncode(e.hh, &e.h.sideEncPool, func(se encoderI) {
 			se.ResetBytes(&mksv)
+
+			se.ciInherit(e.ci)
 			for i, k := range mks {
 				v := &mksbv[i]
 				l := len(mksv)
 				se.setContainerState(containerMapKey)
-				se.encodeR(baseRVRV(k))
+
+				se.encodeR(k)
 				se.atEndOfEncode()
 				se.writerEnd()
 				v.r = k
@@ -5022,11 +5025,14 @@ func (e *encoderBincIO) kMapCanonical(ti *typeInfo, rv, rvv reflect.Value, keyFn
 
 		sideEncode(e.hh, &e.h.sideEncPool, func(se encoderI) {
 			se.ResetBytes(&mksv)
+
+			se.ciInherit(e.ci)
 			for i, k := range mks {
 				v := &mksbv[i]
 				l := len(mksv)
 				se.setContainerState(containerMapKey)
-				se.encodeR(baseRVRV(k))
+
+				se.encodeR(k)
 				se.atEndOfEncode()
 				se.writerEnd()
 				v.r = k
